@@ -148,7 +148,8 @@ def execute(program, ch: Chooser) -> Result:  # noqa: C901, PLR0912
         if any(d.in_exit for d in r.disp.get(0, [])):
             return  # the exit is waiting for a disposable's clean-up, not for the tasks (yet)
         if failed and not waited:
-            blocked = [s["name"] for s in r.all_spawned if s["task"] is not None and not s["task"].done()]
+            # (a task that has been asked to cancel and is still cleaning up is legitimately awaited)
+            blocked = [s["name"] for s in r.all_spawned if s["task"] is not None and not s["task"].done() and s["task"].cancelling() == 0]
             if blocked:
                 waited.append(blocked)
 
